@@ -72,3 +72,19 @@ func VerifC20ParseTargetShaped() {
 		rt.Cover("not-ibc")
 	}
 }
+
+// VerifC20Byte32: a cross-chain target arrives from contract call data as an arbitrary bytes32;
+// decoding it to a string never panics (all 32 bytes may be non-zero, zeros may be embedded) and
+// loses nothing: re-encoding the string gives the same 32 bytes.
+func VerifC20Byte32() {
+	var b [32]byte
+	copy(b[:], rt.Bytes("target", 32))
+	s := Byte32ToString(b)
+	rt.Cover("decoded")
+	back, err := StrToByte32(s)
+	rt.Assert(err == nil, "a decoded bytes32 target can be encoded again")
+	rt.Assert(rt.BytesEq(back[:], b[:]), "decoding a bytes32 target to a string loses nothing")
+	long := rt.Str("text", 33)
+	_, err = StrToByte32(long)
+	rt.Assert(err != nil, "a text longer than 32 bytes is refused, not truncated")
+}
